@@ -29,7 +29,7 @@ func TestVerifFilter(t *testing.T) {
 	t0 := time.Now()
 	prop := os.Getenv("VERIF_PROP")
 	res := vNew(prop, "overlay test in package main of apps/rtcmfilter: the real HandleMessages on mixed streams (valid frames of decodable and other types, corrupted frames, "+
-		"junk) through chunked readers (a third of them returning their last bytes together with the end-of-file error), for the four display/record switch combinations, with writer latencies 0/1/5 ms; at the instant HandleMessages returns: output bytes == concatenation of the valid "+
+		"junk) through chunked readers (a third of them returning their last bytes together with the end-of-file error), for the four display/record switch combinations, with writer latencies 0/1/5 ms (C11: 1/5/20 ms, and a writer that stalls for 8 s - thorough 35 s - on the write that completes the output); at the instant HandleMessages returns: output bytes == concatenation of the valid "+
 		"frames == typed messages of sequential framing, record file == output, readable log has one entry per message; non-trivial = at least one valid frame; distinct = distinct stream")
 	r := rand.New(rand.NewSource(res.Seed))
 	start := time.UnixMilli(1683979200000).UTC()
@@ -38,9 +38,14 @@ func TestVerifFilter(t *testing.T) {
 	if rp != nil {
 		n = 1
 	}
-	for i := 0; i < n; i++ {
+	for i := 0; i < n && vHangs < 3; i++ { // three calls that never returned settle the verdict
 		bs, frames := vStream(r, res.n(60, 400))
-		stray := i%5 == 4
+		// the last case(s): the writer stalls for seconds on the write that completes the output
+		var stall time.Duration
+		if prop == "C11" && i >= n-res.n(1, 2) {
+			stall = time.Duration(res.n(8, 35)) * time.Second
+		}
+		stray := i%5 == 4 && stall == 0
 		if stray {
 			// stray start bytes in front of frames, truncated last frame: the expected output comes from the framing rules
 			bs, frames = vStreamStray(r), nil
@@ -65,14 +70,25 @@ func TestVerifFilter(t *testing.T) {
 			display, record = rp["display"] == "true", rp["record"] == "true"
 			delay, _ = time.ParseDuration(rp["delay"])
 			chunks = vInts(rp["chunks"])
+			stall, _ = time.ParseDuration(rp["stall"])
 			cfg.DisplayMessages, cfg.RecordMessages = display, record
 		}
-		w := &slowWriter{delay: delay}
+		var inputDone int32
+		stallAt := 0
+		for _, sg := range vSegments(bs) {
+			if sg.typed {
+				stallAt += len(sg.raw)
+			}
+		}
+		w := &slowWriter{delay: delay, stall: stall, stallAt: stallAt}
 		class := fmt.Sprintf("display=%v,record=%v", display, record)
+		if stall > 0 {
+			class += ",writer-stalls-after-end-of-input"
+		}
 		if stray {
 			class += ",stray-start-bytes"
 		}
-		op := fmt.Sprintf("filter display=%v record=%v delay=%v chunks=%s stream=%s", display, record, delay, vIntsText(chunks), vhx(bs))
+		op := fmt.Sprintf("filter display=%v record=%v delay=%v stall=%v chunks=%s stream=%s", display, record, delay, stall, vIntsText(chunks), vhx(bs))
 		failure := ""
 		vMark(op)
 		func() {
@@ -84,12 +100,13 @@ func TestVerifFilter(t *testing.T) {
 			done := make(chan struct{})
 			go func() {
 				defer close(done)
-				HandleMessages(start, &chunked{data: append([]byte{}, bs...), chunks: chunks}, w, &cfg)
+				HandleMessages(start, &chunked{data: append([]byte{}, bs...), chunks: chunks, done: &inputDone}, w, &cfg)
 			}()
 			select {
 			case <-done:
 			case <-time.After(60 * time.Second):
 				failure = "HandleMessages did not return"
+				vHangs++
 				return
 			}
 			// the instant of return
